@@ -237,7 +237,10 @@ def eval_history(case: dict) -> dict:
         # module-level state keyed by names or ids must not reach this program
         for pre in case.get("before") or []:
             try:
-                L.build_public(L.realise_script(pre, pal=case.get("pal")))
+                if "script" in pre and "main" not in pre:
+                    L.build_public(L.realise_script(pre["script"], pal=pre.get("pal", case.get("pal")), name_offset=pre.get("name_offset", 0)))
+                else:
+                    L.build_public(L.realise_script(pre, pal=case.get("pal")))
                 out["builds"] += 1
             except Exception:  # noqa: BLE001
                 pass
@@ -334,8 +337,10 @@ def _shape_stats(ap: dict) -> dict:
     return {"depth": depth, "ctrl_cross": cross}
 
 
-def _candidate(table: dict, key: str, size: int, case: dict, what: str, keep: int = 6):
-    lst = table.setdefault(key, [])
+def _candidate(table: dict, key: str, size: int, case: dict, what: str, keep: int = 4):
+    """Per key: the `keep` smallest cases without and the `keep` smallest with a `before` list."""
+    pools = table.setdefault(key, ([], []))
+    lst = pools[1 if case.get("before") else 0]
     lst.append((size, len(lst), case, what))
     lst.sort(key=lambda t: t[:2])
     del lst[keep:]
@@ -350,17 +355,20 @@ def _isolated(fn, case: dict) -> dict:
         return {"infra_error": f"{type(e).__name__}: {e}"}
 
 
-def _confirmed(ck: core.Check, fn, key: str, cands: list) -> tuple[dict, str]:
+def _confirmed(ck: core.Check, fn, key: str, pools: tuple) -> tuple:
     """The workers evaluate thousands of programs per process; a failure caused by what a worker built
-    BEFORE (module-level state) would not replay from the case alone. Take the smallest candidate that
-    fails the same way in a fresh process; if none does, say so."""
+    BEFORE (module-level state) does not replay from the case alone. Take the smallest candidate that
+    fails the same way in a fresh process (first those that stand alone, then those that carry their
+    own `before` programs); if none does, the failure is reported as a broken item, not as a failing
+    input (the cross-program histories are there to produce a self-contained one)."""
+    cands = sorted(pools[0], key=lambda t: t[:2]) + sorted(pools[1], key=lambda t: t[:2])
     for _, _, case, what in cands:
         r = _isolated(fn, case)
         if key in [t[0] for t in r.get("oracle", [])]:
             return case, what
     _, _, case, what = cands[0]
-    ck.broken("correspondence", f"oracle failure {key} does not reproduce in a fresh process: it depends on what the worker process built before (hidden state across programs)", what[:300])
-    return case, what + " [only after other programs were built in the same process]"
+    ck.broken("correspondence", f"oracle failure {key} seen in a worker does not reproduce in a fresh process: it depends on what the process built before (hidden state across programs)", what[:300])
+    return None, what
 
 
 def gen_cases(ck: core.Check) -> tuple[list[dict], dict]:
@@ -388,7 +396,7 @@ def gen_cases(ck: core.Check) -> tuple[list[dict], dict]:
             cases.append({"kind": "script", "script": sc, "descr": d, "family": "skeleton-k3"})
         stats["skeleton_k3_sampled"] = len(cases) - n0
     else:
-        for d, sc in G.skeletons(3, 2, rng, sample=700):
+        for d, sc in G.skeletons(3, 2, rng, sample=650 * (3 if getattr(ck, "escalated", False) else 1)):
             cases.append({"kind": "script", "script": sc, "descr": d, "family": "skeleton-k2"})
         stats["skeleton_k2_sampled"] = len(cases) - n0
         n0 = len(cases)
@@ -410,7 +418,8 @@ def gen_cases(ck: core.Check) -> tuple[list[dict], dict]:
     stats["cross_ctrl_output_sampled"] = len(cases) - n0
     # (ii) seeded random programs
     n0 = len(cases)
-    for i in range(ck.pick(2400, 12000)):
+    esc = 3 if getattr(ck, "escalated", False) and not ck.thorough else 1
+    for i in range(ck.pick(2100, 12000) * esc):
         leak_p = [0.0, 0.0, 0.05, 0.3][i % 4]
         sc = G.random_script(rng, rng.randrange(3, 28), leak_p)
         cases.append({"kind": "script", "script": sc, "family": f"random-leak{leak_p}"})
@@ -490,6 +499,23 @@ def run(ck: core.Check, prove: bool = True):
     from harness import lib_buildalg as L
 
     _deep_recursion()
+    # tie G: inventory of _build.py (functions, module-level names, class attributes, write sites, callees)
+    # regenerated from the source; Props/C04.lean proves it equal to what the model covers
+    try:
+        from translator import buildalg_facts
+
+        facts = buildalg_facts.generate()
+        if facts.get("opaque"):
+            ck.broken("translator", "_build.py not extractable", facts["opaque"])
+        ck.cov["generated_inventory"] = {k: len(facts[k]) for k in ("methods", "moduleNames", "classAttrs", "writes", "calls")}
+        ck.cov["covered_function_hashes"] = facts["hashes"]
+        ck.cov["covered_functions_changed"] = facts["changed_hashes"]
+        if facts["changed_hashes"]:
+            # not an obligation (harmless rewrites stay quiet): the run is escalated to larger counts
+            ck.escalated = True
+            ck.notes.append("normalised AST of covered functions changed: " + ", ".join(facts["changed_hashes"]) + " - counts escalated")
+    except Exception as e:  # noqa: BLE001
+        ck.broken("translator", "buildalg_facts not extractable", f"{type(e).__name__}: {e}")
     if prove:
         ck.lean(["SpoxModel.Props.C04"], audit="SpoxModel.Audit.C04")
         if ck.thorough:
@@ -530,8 +556,10 @@ def run(ck: core.Check, prove: bool = True):
             # same value names, one placement changed) is built first in the same process
             nb = [cases[i]["script"] for i in (j - 1, j + 1)
                   if 0 <= i < len(cases) and cases[i]["kind"] == "script" and cases[i].get("family") == c.get("family")]
-            if nb:
-                hc["before"] = nb
+            # ... and the SAME program under other value names (same operator kinds, node names, body
+            # names, opsets - different Python objects and value names): whatever a process-wide cache
+            # keyed by names or structure hands back is wrong for this program
+            hc["before"] = [{"script": c["script"], "name_offset": 1000}] + nb[:1]
         hcases.append(hc)
     hresults = run_history_cases(ck, hcases)
     hstats = {"programs": len(hcases), "builds": sum(r["builds"] for r in hresults),
@@ -655,6 +683,16 @@ def run(ck: core.Check, prove: bool = True):
                         stats["facets_compared"]["trace"] = stats["facets_compared"].get("trace", 0) + 1
                         if L.drop_initializers(ap, mf["trace"]) != r["trace"]:
                             mismatch("trace", ap, r["trace"], mf["trace"])
+                        # `placed` (theorems placed_in_scope / emitted_in_least_enclosing): position of every
+                        # emitted vertex in the real proto = the model's `placed` = the model's scope_of
+                        inits = {n for n, nd in enumerate(ap["nodes"]) if nd["k"] == "init"}
+                        mp_ = sorted([v, g] for v, g in m.get("placed", []) if v not in inits)
+                        stats["facets_compared"]["placed"] = stats["facets_compared"].get("placed", 0) + 1
+                        if mp_ != sorted(L.placed_from_trace(r["trace"])):
+                            mismatch("placed", ap, sorted(L.placed_from_trace(r["trace"])), mp_)
+                        so_ = {v: g for v, g in mf["scope_of"]}
+                        if any(so_.get(v) != g for v, g in m.get("placed", [])):
+                            mismatch("placed vs scope_of (instance of placed_in_scope)", ap, None, m.get("placed"))
                     for facet, val in r["facets"].items():
                         stats["facets_compared"][facet] = stats["facets_compared"].get(facet, 0) + 1
                         if mf[facet] != val:
@@ -678,7 +716,7 @@ def run(ck: core.Check, prove: bool = True):
             stats["main_input_read_only_at_depth>=2"] = stats.get("main_input_read_only_at_depth>=2", 0) + 1
         if r["case"].get("amb") is not None:
             stats["under_ambient_settings"] = stats.get("under_ambient_settings", 0) + 1
-        if r["case"].get("pal") is not None and (r["case"]["pal"] >> 3) & 1:
+        if r["case"].get("pal") is not None and (r["case"]["pal"] >> 3) & 3 == 3:
             stats["mixed_opset_modules"] = stats.get("mixed_opset_modules", 0) + 1
     for facet, n in stats["facets_unobservable"].items():
         ck.broken("correspondence", f"{facet} not observable on {n} case(s): the Builder's internals changed shape", unobs_first[facet])
@@ -690,12 +728,16 @@ def run(ck: core.Check, prove: bool = True):
     ck.exhaustive = False
     for key, cands in sorted(fails.items()):
         case, what = _confirmed(ck, eval_case, key, cands)
+        if case is None:
+            continue
         ck.failure(key, what, case, how="realise the case (script: if_/loop callbacks; ap: low-level Graph API), build, inspect the ModelProto")
     for key, cands in sorted(hfails.items()):
         # a well-scoped program rejected / a model with duplicated or misplaced nodes after an earlier
         # build over the same objects (or after other programs in the same process): the same property
         # failure, reached through a history
         case, what = _confirmed(ck, eval_history, key, cands)
+        if case is None:
+            continue
         ck.failure(key, what, case, how="build the `before` programs, realise the script once, build the listed requests in order over the same objects, inspect each ModelProto")
     ck.log(f"correspondence mismatches: {mism} {mism_by}; unobservable: {stats['facets_unobservable']}; oracle failure kinds: {sorted(fails) + sorted(hfails)}; histories: {hstats}")
 
